@@ -135,7 +135,11 @@ class Respell(ast.NodeTransformer):
 
     def visit_AugAssign(self, node):
         self.generic_visit(node)
-        if isinstance(node.target, (ast.Name, ast.Attribute)):
+        if isinstance(node.target, (ast.Name, ast.Attribute)) and not any(
+                isinstance(y, (ast.List, ast.ListComp, ast.Tuple, ast.Dict, ast.Set)) or
+                (isinstance(y, ast.Call) and isinstance(y.func, (ast.Name, ast.Attribute)) and
+                 (y.func.id if isinstance(y.func, ast.Name) else y.func.attr) in ('list', 'as_list', 'tuple', 'dict', 'set'))
+                for y in ast.walk(node.value)):       # in-place growth of a container is not the same statement as a re-binding
             import copy
             self.count += 1
             left = copy.deepcopy(node.target)
